@@ -73,7 +73,7 @@ def analyse_walk(ctx: Ctx) -> Walk:
         return cached
     f = ctx.func(EXEC)
     top = ctx.paths(EXEC)
-    mains = [p for p in top if p.exit[0] == "return" and loops(p)]
+    mains = [p for p in top if p.exit[0] == "return" and any(l.loopkind == "while" for l in loops(p))]
     ctx.require(len(mains) >= 1, f"{EXEC}: no returning path through a loop")
     def _fills_after(p_: Path) -> bool:
         wl = [l for l in loops(p_) if l.loopkind == "while"]
